@@ -18,7 +18,7 @@ while args:
     elif args[0] == '--from': only_from = args[1]; args = args[2:]
     else: args = args[1:]
 files = files or ['multiqueue.rs', 'read_cursor.rs', 'countedindex.rs', 'memory.rs', 'wait.rs', 'atomicsignal.rs', 'alloc.rs']
-ops = ops or {'del', 'ord', 'cmp', 'const', 'bool'}
+ops = ops or {'del', 'ord', 'cmp', 'const', 'bool'}   # further operators: argswap, stmtswap
 
 
 def regions_to_skip(lines):
@@ -73,6 +73,18 @@ def mutants():
                     yield (f, i, 'const:%s1@%d' % (m.group(1), m.start()), l, l[:m.start()] + m.group(1) + ' 2' + l[m.end():])
                 for m in re.finditer(r'([+-]) 1\b(?!\.)', code):
                     yield (f, i, 'const0:%s1@%d' % (m.group(1), m.start()), l, l[:m.start()] + m.group(1) + ' 0' + l[m.end():])
+            if 'argswap' in ops:
+                # f(a, b) -> f(b, a) for two plain arguments (compiles only when they have the same type)
+                for m in re.finditer(r'\b([A-Za-z_][\w:.]*)\(([^(),]+), ([^(),]+)\)', code):
+                    a_, b_ = m.group(2).strip(), m.group(3).strip()
+                    if a_ != b_ and not m.group(1).endswith(('assert_eq', 'format', 'println')):
+                        yield (f, i, 'argswap@%d' % m.start(), l, l[:m.start(2)] + b_ + ', ' + a_ + l[m.end(3):])
+            if 'stmtswap' in ops and i + 1 < len(lines):
+                nx = lines[i + 1]
+                simple = lambda z: bool(re.match(r'^\s+[A-Za-z_(*&:<].*;\s*$', z.split('//')[0])) and z.count('(') == z.count(')') and z.count('{') == z.count('}') \
+                    and not re.match(r'^\s*(return|break|continue|use|pub|fn|const|static|type)\b', z)
+                if simple(l) and simple(nx) and (len(l) - len(l.lstrip())) == (len(nx) - len(nx.lstrip())) and (i + 1) not in skip:
+                    yield (f, i, 'stmtswap', l, nx + '\n' + l, True)
             if 'bool' in ops:
                 for m in re.finditer(r'&&|\|\|', code):
                     yield (f, i, 'bool:%s@%d' % (m.group(0), m.start()), l, l[:m.start()] + ('||' if m.group(0) == '&&' else '&&') + l[m.end():])
@@ -85,7 +97,9 @@ def mutants():
 
 
 def one(im):
-    idx, (f, i, op, old, new) = im
+    idx, mm = im
+    (f, i, op, old, new) = mm[:5]
+    two = len(mm) > 5
     base = tempfile.mkdtemp(prefix='mq2sweep-')
     try:
         for x in ('Cargo.toml', 'Cargo.lock'):
@@ -95,6 +109,8 @@ def one(im):
         lines = open(p).read().split('\n')
         assert lines[i] == old
         lines[i] = new
+        if two:
+            del lines[i + 1]
         open(p, 'w').write('\n'.join(lines))
         env = dict(os.environ, MQ2_REPO=base, MQ2_TAG='sweep%d' % (idx % jobs))
         r = subprocess.run(['/verif/check', 'ALL'], capture_output=True, text=True, env=env, cwd='/verif')
